@@ -167,6 +167,8 @@ def handleRange (st : St) (op : String) (j : Json) : Option (D (St × Json)) :=
         ("uEnd", trace (fun st => decide (st.unplaced.openEnd ≤ spineR st.unplaced.content))),
         ("uWfRun", Json.bool (unplacedWfRun S d f t sl)), ("coherent", coherent), ("labels", Json.bool S.labelsOKB), ("leafOk", Json.bool (PM.FromDom.leafOkB S)), ("textStable", Json.bool (textStableC S)), ("slWf", Json.bool sl.wf),
         ("closable", Json.bool S.closableB), ("slClosedValid", Json.bool (sl.closedValid S)),
+        ("slValid", Json.bool (openValidB S sl.openStart sl.openEnd sl.content)),
+        ("endInv", match fitEndInv S d f t sl with | some b => Json.bool b | none => Json.null),
         ("hyp", Json.bool (PM.FromDom.detB S && S.fillersOKB && S.wrapOKB && S.checkNode d && S.nodeAttrsOK d))])]))
   | "fillBeforeO" => some do
     let S ← getSchema st j
